@@ -40,8 +40,61 @@ def plan(tier, seed):
                       "rounds": 12 if tier == "quick" else 400})
     for i in range(2 if tier == "quick" else 8):
         specs.append({"name": f"insitu{i}", "kind": "insitu", "index": i, "rounds": 3 if tier == "quick" else 150})
+    specs = both_interpreter_modes_(specs)
+    # ONE PRP / cipher object asked for more distinct inputs than any memo holds (2^16 + 500 counters of 20 bits, then the
+    # first ones again): still a permutation, still the same answers, decrypt still inverts
+    specs.append({"name": "one-object-70000-inputs-prp", "kind": "long_life", "what": "prp", "python_O": False})
+    specs.append({"name": "one-object-70000-inputs-ffx", "kind": "long_life", "what": "ffx", "python_O": True})
+    return specs
+
+
+def both_interpreter_modes_(specs):
     from vlib.common import both_interpreter_modes
     return both_interpreter_modes(specs)
+
+
+def long_life(spec, acc, ctx):
+    from toolkit.bits import Bitset
+    import toolkit.prp as prp_mod
+    from toolkit.symmetric_encryption.fpe import BitwiseFFX
+    rng = ctx.rng
+    n, total, again = 20, (1 << 16) + 500, 400
+    key = rng.randbytes(16)
+    if spec["what"] == "prp":
+        obj = prp_mod.get_prp_implementation("BitwiseFPEPRP")(message_bit_length=n, key_bit_length=128)
+        K = Bitset(key, 128)
+        call = lambda x: int(obj(K, Bitset(x, n)))     # noqa: E731
+    else:
+        obj = BitwiseFFX()
+        call = lambda x: int(obj.encrypt(key, Bitset(x, n)))     # noqa: E731
+    first = {}
+    images = set()
+    for x in range(total):
+        y = call(x)
+        if x < again:
+            first[x] = y
+        images.add(y)
+    acc.count("long_life.calls", total)
+    acc.count("cases")
+    case = {"what": spec["what"], "n": n, "inputs": total}
+    if len(images) != total:
+        acc.violation(f"{spec['what']}:long-life:not-injective", f"{total} distinct {n}-bit inputs on one object gave "
+                                                                 f"{len(images)} distinct images", case)
+        return
+    bad = [x for x in range(again) if call(x) != first[x]]
+    acc.count("long_life.revisited", again)
+    if bad:
+        acc.violation(f"{spec['what']}:long-life:answer-changed",
+                      f"after {total} distinct inputs on one object, {len(bad)} of the first {again} inputs get another "
+                      f"image than before (e.g. input {bad[0]})", case)
+        return
+    if spec["what"] == "ffx":
+        wrong = [x for x in range(0, again, 7) if int(obj.decrypt(key, Bitset(first[x], n))) != x]
+        if wrong:
+            acc.violation("ffx:long-life:inverse", f"decrypt no longer inverts encrypt for {len(wrong)} early inputs", case)
+            return
+    acc.add("distinct", fp("long-life", spec["what"]))
+    acc.add("long_life_done", spec["what"])
 
 
 def run_shard(spec, acc, ctx):
@@ -59,6 +112,9 @@ def _run_shard(spec, acc, ctx):
     import toolkit.prp as prp_mod
     rng = ctx.rng
     kind = spec["kind"]
+    if kind == "long_life":
+        long_life(spec, acc, ctx)
+        return
     if kind == "ffx_exh":
         n = spec["n"]
         ffx = BitwiseFFX()
@@ -650,6 +706,8 @@ def finish(m, tier, seed):
     ex = sorted(int(x) for x in m["sets"].get("exhaustive_n", []))
     if ex != list(range(2, 13)):
         inc.append(f"exhaustive widths covered {ex}, expected 2..12")
+    if len(m["sets"].get("long_life_done", [])) < 2:
+        inc.append("the 2^16+500-input lives of one PRP / cipher object did not complete")
     if "2-byte" not in m["sets"].get("lr_exhaustive", []):
         inc.append("Luby-Rackoff 2-byte exhaustive run missing")
     if len(m["sets"].get("shared_object_orders", [])) < 3:
